@@ -903,3 +903,94 @@ def entry_point_replaced_only_on_unnamed_or_fresh(ctx):
                 f"`{short(c, 40)}` re-creates the entry point of an object that may already be in use: marks carried by the old entry point (extend_super) are lost, and a class built with it as a mixin drops its definitions",
             )
     ctx.require(n >= 2, "expected calls of the renaming method")
+
+
+# ---------------------------------------------------------------------------------------- mutators: rebuild last
+def rebuild_is_the_mutators_last_effect(ctx):
+    """A method that changes the method set (it announces itself to the lock and then propagates the change) has
+    made all its changes - to itself and to the functions it links with - before it starts the rebuild."""
+    from ..effects import MUTATORS
+
+    repo = ctx.repo
+    oc = A.function_class(repo)
+    guard = A.guard_method(repo)
+    try:
+        upd = A.update_method(repo)
+    except AnalysisError:
+        ctx.ob(f"{oc.key}:no-propagation", oc.loc(), "no propagation method (reported by C05.R2 / C16.R3): nothing to order", True, "")
+        return
+    n = 0
+    for m in oc.methods.values():
+        rv = recv_name(m)
+        calls_guard = any(is_self_attr(c.func, guard.name, selfname=rv) for st in all_stmts(m.node) for c in stmt_calls(st))
+        upd_stmts = [st for st in all_stmts(m.node) if any(is_self_attr(c.func, upd.name, selfname=rv) for c in stmt_calls(st))]
+        if not calls_guard or not upd_stmts or m is upd:
+            continue
+        n += 1
+        ctx.touch(m)
+        cfg = cfg_of(ctx, m)
+        after = set()
+        for u in upd_stmts:
+            after |= cfg.reachable(cfg.node_of(u))
+        late = []
+        for st in all_stmts(m.node):
+            if isinstance(st, (ast.FunctionDef, ast.ClassDef)) or cfg.node_of(st) not in after or st in upd_stmts:
+                continue
+            from ..cfg import header_exprs
+            from ..effects import stmt_writes
+
+            ws = list(stmt_writes(st, rv))
+            for e in header_exprs(st):
+                for x in ast.walk(e):
+                    if isinstance(x, ast.Call) and isinstance(x.func, ast.Attribute) and x.func.attr in MUTATORS and isinstance(x.func.value, ast.Attribute) and x.func.value.attr in ("children", "mixins", "_defns"):
+                        ws.append(x)
+            if ws:
+                late.append(st)
+        ctx.ob(
+            f"{m.key}:changes-before-rebuild",
+            m.loc(late[0]) if late else m.loc(upd_stmts[0]),
+            f"`{m.name}` has made all its changes before it calls `{upd.name}()`",
+            not late,
+            f"`{short(late[0], 50) if late else ''}` runs after the rebuild was started: when the rebuild fails, the change is only half made (the parent is locked by a child it does not know, so the offending method can never be removed)",
+        )
+    ctx.require(n >= 2, "expected several mutators that propagate their change")
+
+
+# ---------------------------------------------------------------------------------------- shared default arguments
+def no_shared_mutable_defaults_written(ctx):
+    """A mutable default argument is one object shared by all calls (and threads): it is never written, and never
+    handed to exec / eval as a namespace."""
+    from ..effects import MUTATORS
+
+    repo = ctx.repo
+    n = 0
+    for f in repo.all_funcs():
+        a = f.node.args
+        params = [x.arg for x in a.posonlyargs + a.args]
+        defaults = dict(zip(params[len(params) - len(a.defaults):], a.defaults))
+        defaults.update({x.arg: d for x, d in zip(a.kwonlyargs, a.kw_defaults) if d is not None})
+        for p, d in defaults.items():
+            if not (isinstance(d, (ast.Dict, ast.List, ast.Set)) or (isinstance(d, ast.Call) and call_name(d) in ("dict", "list", "set", "defaultdict"))):
+                continue
+            n += 1
+            ctx.touch(f)
+            bad = None
+            for x in ast.walk(f.node):
+                if isinstance(x, (ast.Assign, ast.AugAssign)):
+                    for t in x.targets if isinstance(x, ast.Assign) else [x.target]:
+                        if isinstance(t, ast.Subscript) and dotted(t.value) == p:
+                            bad = x
+                        if isinstance(x, ast.AugAssign) and dotted(t) == p:
+                            bad = x
+                if isinstance(x, ast.Call) and isinstance(x.func, ast.Attribute) and x.func.attr in MUTATORS and dotted(x.func.value) == p:
+                    bad = x
+                if isinstance(x, ast.Call) and call_name(x) in ("exec", "eval") and any(dotted(y) == p for y in list(x.args[1:]) + [k.value for k in x.keywords]):
+                    bad = x
+            ctx.ob(
+                f"{f.key}:default-{p}-not-written",
+                f.loc(bad) if bad is not None else f.loc(),
+                f"the mutable default of `{p}` in `{f.name}` is only read",
+                bad is None,
+                f"`{short(bad, 50) if bad is not None else ''}` writes into the default object, which every call shares: two builds that generate code at the same time pick up each other's function",
+            )
+    ctx.require(n >= 1, "expected at least one mutable default argument in the package (instantiate_code's inject)")
